@@ -71,3 +71,54 @@ def reevaluate(ck, new_rule, module_name, accept, what):
         ck.broken(new_rule, 'reeval:' + module_name, '', 'no instance of %s selected (anchor vanished)' % module_name)
     else:
         ck.holds(new_rule, 'reeval:' + module_name, '', '%s: %d rule instances of %s re-evaluated and hold' % (what, px.nhold, module_name.upper()))
+
+
+# ---- loop variables by role, not by name ---------------------------------------------------------------------------------
+def _strip_cast(t):
+    while t is not None and t[0] == 'cast':
+        t = t[2]
+    return t
+
+
+def base_name(k):
+    """declared name of a variable key without the engine's decoration: no frame prefix of a looked-through helper
+    ('helper@17:i'), no shadowing suffix ('i~14')"""
+    import re
+    from ..sym import fmt
+    x = fmt(k)
+    x = re.sub(r'^(\w+@\d+:)+', '', x)
+    return re.sub(r'~\d+$', '', x)
+
+
+def loop_steps(ps, loop_node):
+    """{key: step} for the variables of the loop `loop_node` that every path running back to its head advances by the
+    same constant (ps: all paths of the function).  Renaming a variable or moving the loop into a helper changes nothing
+    here; changing the step does."""
+    from ..sym import mem_read, linearize as L
+    steps = None
+    for p in ps:
+        if p.end != 'loopback' or not p.loops or p.loops[-1][0] is not loop_node:
+            continue
+        cur = {}
+        for k, (h, pre) in p.loops[-1][1].items():
+            v = mem_read(p.mem, k, None)
+            if v is None:
+                continue
+            try:
+                d = L(_strip_cast(v)) - L(h)
+            except Exception:      # noqa: BLE001 - non-linear value: no constant step
+                continue
+            if d.is_const():
+                cur[k] = int(d.c)
+        steps = cur if steps is None else {k: s for k, s in steps.items() if cur.get(k) == s}
+    return steps or {}
+
+
+def loop_counter(ps, p, step=1):
+    """[(key, havoc atom, value before the loop)] of the variables of p's innermost loop that every iteration advances
+    by `step`"""
+    if not p.loops:
+        return []
+    node, lmap = p.loops[-1]
+    st = loop_steps(ps, node)
+    return [(k, lmap[k][0], lmap[k][1]) for k in lmap if st.get(k) == step]
